@@ -27,6 +27,15 @@ def run(prop, tier, seed):
         for i, d in enumerate(d_plain):
             if (i + j) % stride == 0:
                 cases.append(schedlib.with_drive(c, i, d))
+    # racing tasks (spec/props/C10race.tla): no expected output, all drives of one program must agree (Confluence)
+    race, rres = vlib.gen_enumerate(prop, os.path.join(PROPS, "C10race.tla"),
+                                    cfg=os.path.join(PROPS, "C10race.cfg" if tier == "quick" else "C10race_thorough.cfg"))
+    if tier == "quick":
+        race = [c for i, c in enumerate(race) if (i + seed) % 3 == 0]
+    d_race = [d for d in d_tasks if d["delay"] in (0, 1)]
+    for c in race:
+        for i, d in enumerate(d_race):
+            cases.append(schedlib.with_drive(dict(c, race=True), i, d, {"maxsteps": 50000}))
     obs, _ = vlib.run_harness(cases, wd, jobs=12, timeout=40)
     ncomp = 0
     by_prog = {}
@@ -38,18 +47,35 @@ def run(prop, tier, seed):
         sig = json.dumps([o.get("status"), o.get("out"), o.get("result"), (o.get("err") or {}).get("kind"), (o.get("err") or {}).get("loc"),
                           (o.get("err") or {}).get("trace")], sort_keys=True)
         by_prog.setdefault(prog, {}).setdefault(sig, []).append(c["id"])
+        if c.get("race"):
+            if o.get("status") != "done":
+                rep.finding("C10|race|%s|%s" % (o.get("status"), prog), c, o, [{"field": "status", "want": "done", "got": o.get("status")}],
+                            "a racing-tasks program did not finish under budgets %s delay %d" % (c["budgets"], c["delay"]))
+            continue
         mism = vlib.compare(c["expect"], o)
         if mism:
             rep.finding("C10|%s|%s" % (",".join(sorted(m["field"] for m in mism)), prog), c, o, mism,
                         "observation under budgets %s delay %d differs from the slicing-independent expectation" % (c["budgets"], c["delay"]))
     # relational form as well: all drives of one program agree with each other
     disagree = [p for p, sigs in by_prog.items() if len(sigs) > 1]
+    first = {c["id"].split("@")[0]: (c, o) for c, o in reversed(list(zip(cases, obs)))}
+    for p in disagree:
+        if not p.startswith("race"):
+            continue            # programs with an expectation were reported above, drive by drive
+        sigs = by_prog[p]
+        odd = sorted(sigs.items(), key=lambda kv: len(kv[1]))[0][1][0]
+        c = next(x for x in cases if x["id"] == odd)
+        o = obs[cases.index(c)]
+        rep.finding("C10|race|drives-disagree|%s" % p, c, o, [{"outcomes": {k: v[:4] for k, v in sigs.items()}}],
+                    "the printed result of a racing-tasks program depends on the slicing: budgets %s delay %d give %s, other drives "
+                    "give something else" % (c["budgets"], c["delay"], (o.get("out") or "").strip()))
     cov.update({
         "traces_validated_against_impl": len(cases) - ncomp,
         "evaluations": len(cases), "distinct_nontrivial": len({c["id"] for c in cases}),
         "rule": "program x embedder drive from spec/vm/Slicing.tla (every budget pattern of period <= MaxLen over Small, large and zero "
                 "budgets, unbounded, servicing delays); each run replays one behaviour of the slicing model on the real runtime",
         "scenario_programs": len(scn), "generated_programs": len(gen), "not_compiled_skipped": ncomp,
+        "racing_task_programs": len(race), "racing_task_drives": len(d_race),
         "drives_tasks": len(d_tasks), "drives_plain": len(d_plain), "programs_with_disagreeing_drives": len(disagree),
         "samples": [{"id": c["id"], "budgets": c["budgets"], "delay": c["delay"], "source": c["files"]["main.abra"][:300]} for c in cases[:2]],
     })
